@@ -72,14 +72,28 @@ def joinAll (acl : Acl) (L : Log) : List (OMap × OMap) → Log
     | .ok L' => joinAll acl L' rest
     | .error _ => joinAll acl L rest
 
-/-- `replicationLoadComplete(logs)`: join, update the index, put `_remoteHeads`, update the status -/
-def Store.loadEnd (acl : Acl) (s : Store) (logs : List (OMap × OMap)) : Store :=
+/-- `replicationLoadComplete(logs)` as it was before the `fix:` commit of finding F26: join, update
+the index, put the heads of the merged log as `_remoteHeads`, update the status. On a store whose
+log holds everything its cache points to this is what the current code does (`loadEnd_eq_loadEnd0`). -/
+def Store.loadEnd0 (acl : Acl) (s : Store) (logs : List (OMap × OMap)) : Store :=
   let L' := joinAll acl s.log logs
   let idx := updateIndex s.kind s.idx L'
   let heads := (sortedHeads L').map (·.hash)
   let len : Int := L'.entries.length
   let st := if len > s.status.progress then recalcStatus len s.status len else s.status
   { s with log := L', idx := idx, remoteHeads := some heads, status := st }
+
+/-- the cached remote heads the (possibly partially loaded) log `L` has no entry for -/
+def keptHeads (cached : Option (List Nat)) (L : Log) : List Nat :=
+  (cached.getD []).filter (fun h => !has L.entries h)
+
+/-- `replicationLoadComplete(logs)`: join, update the index, put `_remoteHeads`, update the status.
+The heads written are the heads of the merged log followed by the cached remote heads the log has no
+entry for (a store loaded with a limit does not hold everything its cache points to: what it does
+not hold must stay reachable from the cache — finding F26). -/
+def Store.loadEnd (acl : Acl) (s : Store) (logs : List (OMap × OMap)) : Store :=
+  let s' := s.loadEnd0 acl logs
+  { s' with remoteHeads := some ((sortedHeads s'.log).map (·.hash) ++ keptHeads s.remoteHeads s'.log) }
 
 /-- joins of the **pinned** `replicationLoadComplete` (finding F6, repaired): abort on the first
 error, keeping the joins already done -/
